@@ -464,7 +464,8 @@ class Parser:
                     # Directly opened a new branch so keep the previous index
                     pass
                 else:
-                    branch_idxs.append(self.n_atoms - 1)
+                    # Branch from the atom the next would have bonded to
+                    branch_idxs.append(prev_idx)
                 continue
 
             elif char == ")":  # Closed branch
